@@ -106,12 +106,41 @@ def keys_oracle(c):
     return None
 
 
+def imp_oracle(c):
+    """ImpliesMaximalPrevotes, declaratively from the header chain (LIP-0058): after block b it is true iff b casts prevotes
+    (maxHeightGenerated < height) and the block of this chain at height maxHeightGenerated, if it is among the newest
+    min(3*batch, blocks so far) headers, has the same generator.  Returns a description of the first difference or None."""
+    blocks = c["blocks"]
+    for i, (b, o) in enumerate(zip(blocks, c["obs"])):
+        if o["err"] != 0:
+            break
+        if o["imp"] == 2:
+            return "after block %d ImpliesMaximalPrevotes returned an error" % b["h"]
+        if b["mhg"] >= b["h"]:
+            want = False
+        else:
+            win = min(3 * c["batch"], i + 1)
+            if b["h"] - b["mhg"] >= win:
+                want = True
+            else:
+                j = i - (b["h"] - b["mhg"])
+                want = blocks[j]["gen"] == b["gen"] if (0 <= j and blocks[j]["h"] == b["mhg"]) else None
+        if want is not None and bool(o["imp"]) != want:
+            return ("after block %d (generator %d, maxHeightGenerated %d) ImpliesMaximalPrevotes = %s, LIP-0058 gives %s"
+                    % (b["h"], b["gen"], b["mhg"], bool(o["imp"]), want))
+    return None
+
+
 def evaluate(ck, recs, tag="hist"):
     res = ck.coq_eval(IMPORTS, "hist_case_g", "check_hist_g", [hist_term_g(c) for c in recs], shard=40, tag=tag)
     if res is None:
         return
     for c in recs:
         if c.get("initok"):
+            bad_imp = imp_oracle(c)
+            if bad_imp:
+                ck.failures.append(dict(kind="history", key="c02:imp:spec", what=bad_imp, case=c, spec_violated=True,
+                                        theorem_or_correspondence="API.ImpliesMaximalPrevotes vs LIP-0058 (C02_implies_maximal_prevotes_spec)"))
             bad = keys_oracle(c)
             if bad:
                 ck.failures.append(dict(kind="history", key="c02:params:bls-keys", what=bad, case=c, spec_violated=True,
